@@ -57,7 +57,7 @@ func runC10(r *core.Run) {
 		r.Distinct([]byte(fn), []byte{byte(code >> 8), byte(code)})
 	}
 	dest := c10Dest()
-	core.ParallelFor(65536, func(_, code int) {
+	perCode := func(code int) {
 		si, sKnown := refmodel.SigTable[code]
 		cLen, cKnown := refmodel.CryptoTable[code]
 		// ---- signing lookups
@@ -203,6 +203,18 @@ func runC10(r *core.Run) {
 					bad("behaviour", "LeaseSet2.Validate(key length)", code, "key type %d len %d: Validate err=%v, specification length %d known=%v", code, L, verr, cLen, cKnown)
 				}
 			}
+		}
+	}
+	core.ParallelFor(65536, func(_, code int) {
+		// a lookup that panics for some code is neither "known" nor "unknown": reported here with the code
+		// (C04 owns panics in general; without this guard the sweep itself would die on a worker goroutine)
+		if pan, msg, site := core.GuardSite(func() { perCode(code) }); pan {
+			cls := "unknown-to-the-specification-table"
+			if refmodel.SigKnown(code) || refmodel.CryptoKnown(code) {
+				cls = "known"
+			}
+			r.Violate("C10|lookup-panics|"+site+"|"+cls, fmt.Sprintf("a size lookup panics for type code %d instead of reporting it known or unknown: %s", code, msg),
+				core.Case{Kind: "sweep", Args: map[string]string{"fn": site, "code": fmt.Sprint(code), "detail": msg}})
 		}
 	})
 
